@@ -1173,7 +1173,7 @@ theorem init_sim (hord : OrdOK cfg) : Inv cfg ({} : A) (init cfg) := by
       split at hm1
       · cases hm1
         obtain ⟨e1, e2, _⟩ := core_more hcore
-        exact ⟨e1, e2⟩
+        exact ⟨e1, e2, (core_fields hcore).2.2.1⟩
       · cases hm1
     · obtain ⟨m1, hm1, hcore⟩ := n.surv u m hm (t.aopen u m hm)
       simp only [State.find, List.find?_cons, List.find?_nil] at hm1
